@@ -44,6 +44,10 @@ class C02(Check):
                {"type": "record", "name": "Point", "fields": [{"name": "x", "type": "int"}, {"name": "y", "type": "int"}, {"name": "z", "type": "int", "default": 0}]}]
         ens = ["null", {"type": "enum", "name": "ns.Level", "symbols": ["LOW", "HIGH"]}, {"type": "enum", "name": "Level", "symbols": ["HIGH", "LOW"]},
                {"type": "fixed", "name": "deep.ns.Id", "size": 2}, {"type": "fixed", "name": "Id", "size": 2}]
+        wide = [2**31, 2**31 + 1, 3000000000, 2**32 - 1, 2**32, -(2**31) - 1, -3000000000, -(2**32) + 1, -(2**32), 2**31 - 1, -(2**31)]
+        yield {"schema": ["int", "long"], "data": wide, "parsed": False}
+        yield {"schema": {"type": "record", "name": "W", "fields": [{"name": "v", "type": ["null", "int", "long"]}, {"name": "xs", "type": {"type": "array", "items": ["int", "long", "string"]}}]},
+               "data": [{"v": w, "xs": [w, 1, -w]} for w in wide], "parsed": True}
         for parsed in (False, True):
             yield {"schema": pts, "data": [("Point", {"x": 1, "y": 2, "z": 3}), ("v1.Point", {"x": 4, "y": 5}), ("Point", {"x": 6, "y": 7})], "parsed": parsed}
             yield {"schema": {"type": "array", "items": ens}, "data": [[("Level", "HIGH"), ("ns.Level", "HIGH"), ("Id", b"ab"), ("deep.ns.Id", b"cd"), None, ("Level", "LOW")]], "parsed": parsed}
